@@ -1297,11 +1297,11 @@ def _round3_c18(ctx, rep, tier):
     rep.check(model.has(q, "source_line = ProgramData.get_source_line(line) or ''") and model.has(q, "i < len(source_line) and source_line[i] == '\\t'") and "get_source_line(line)[" not in ast.unparse(model.func(q)),
               "C18.v", q, "guarded indexing of the source line", "the marker indexes get_source_line(line)[i] for every i below the column: IndexError / TypeError when the column comes from another, longer line or the line is unknown")
     # C18.w recursion limit
-    rep.rule("C18.w", "parse() and compile() turn RecursionError (statement sequences / nesting / macro expansion deeper than the interpreter allows) into an NMFUError")
+    rep.rule("C18.w", "parse(), compile() and the two generator entry points turn RecursionError (statement sequences / nesting / macro expansion deeper than the interpreter allows) into an NMFUError")
     dq = "diagnoses_recursion_limit"
     okd = model.has_func(dq) and model.has(dq + ".wrapper", "try:\n    return function(*args, **kwargs)\nexcept RecursionError:\n    raise NMFUError($$a, $$m) from None") if model.has_func(dq) else False
     rep.check(okd, "C18.w", dq, "decorator: RecursionError -> NMFUError", "no conversion of RecursionError into a diagnosed error")
-    for q in ("ParseCtx.parse", "DfaCompileCtx.compile"):
+    for q in ("ParseCtx.parse", "DfaCompileCtx.compile", "CodegenCtx.generate_header", "CodegenCtx.generate_source"):     # (the generator's walks recurse over the same machine: F-123)
         decs = [ast.unparse(d) for d in model.func(q).decorator_list]
         rep.check(dq in decs, "C18.w", q, "decorated with diagnoses_recursion_limit", f"{q} lets RecursionError escape: a parser with ~1100 statements, or a recursive macro whose call is nested in blocks, "
                   "ends in an internal exception")
